@@ -1,5 +1,280 @@
-/- Model for C06 (core Lean only, no Mathlib). -/
+/-
+Model of the multi-part upload assembly of `odc/geo/cog/_mpu.py` (core Lean only).
+
+`MPUChunk` methods that mutate become functions returning the new chunk together with the
+list of writer calls they made (`Part = (part number, bytes)`; the real writer returns an
+opaque dict per call, the model keeps the bytes so that the byte stream can be stated).
+The dask graph built by `mpu_write` (per-partition `_mpu_append_chunks_op`, `fold` with
+`_merge_and_spill_op`, `_mpu_collate_op` over sub-streams, `_finalizer_dask_op`) is a binary
+merge tree over adjacent partitions: `Tree`.  Each node is a pure function of its children,
+so the value computed does not depend on the order in which dask executes sibling tasks.
+
+The model follows the code *as repaired* by the `fix:` commits for findings F7, F8, F9.
+-/
 import OdcGeo.Model.IO
 namespace OdcGeo.C06
+
+/-- one call `write(part, data)` -/
+structure Part (α : Type) where
+  id : Nat
+  data : List α
+  deriving DecidableEq, Repr
+
+/-- `MPUChunk` (`_mpu.py:55-93`) -/
+structure Chunk (α : Type) where
+  next : Nat                      -- nextPartId
+  credits : Int                   -- write_credits
+  data : List α
+  left : List α                   -- left_data
+  parts : List (Part α)
+  observed : List (Nat × Int)     -- (size, chunk id)
+  isFinal : Bool
+  lhsKeep : Nat
+  deriving Repr
+
+/-- the limits of a `PartsWriter` that the code reads -/
+structure Writer where
+  minWrite : Nat
+  minPart : Nat
+  maxPart : Nat
+  deriving Repr, DecidableEq
+
+variable {α : Type}
+
+def mkChunk (partId : Nat) (credits : Int) (isFinal : Bool) (lhsKeep : Nat) : Chunk α :=
+  ⟨partId, credits, [], [], [], [], isFinal, lhsKeep⟩
+
+/-- `started_write` -/
+def Chunk.started (c : Chunk α) : Bool := !c.parts.isEmpty
+
+/-- `append` (`_mpu.py:117-120`) -/
+def Chunk.append (c : Chunk α) (d : List α) (cid : Int) : Chunk α :=
+  { c with observed := c.observed ++ [(d.length, cid)], data := c.data ++ d }
+
+/-- `can_flush` inside `flush_rhs` (`_mpu.py:190-197`); `n = len(data)` -/
+def canFlush (W : Writer) (c : Chunk α) (n : Nat) : Bool :=
+  if c.credits < 1 then false
+  else if c.started then c.isFinal || decide (W.minWrite ≤ n)
+  else if c.isFinal then decide (c.lhsKeep < n)
+  else decide ((W.minWrite : Int) ≤ (n : Int) - (c.lhsKeep : Int))
+
+/-- `_flush_data` inside `flush_rhs` (`_mpu.py:174-188`) -/
+def flushData (W : Writer) (c : Chunk α) (data : List α) : Res (Chunk α × List (Part α)) :=
+  if ¬ (W.minPart ≤ c.next ∧ c.next ≤ W.maxPart) then .error .assertion
+  else
+    let keep := !c.started && decide (0 < c.lhsKeep)
+    let left' := if keep then data.take c.lhsKeep else c.left
+    let d' := if keep then data.drop c.lhsKeep else data
+    let p : Part α := ⟨c.next, d'⟩
+    .ok ({ c with left := left', parts := c.parts ++ [p], data := [],
+                  next := c.next + 1, credits := c.credits - 1 }, [p])
+
+/-- `flush_rhs(write, extra_data)` (`_mpu.py:167-217`) -/
+def flushRhs (w : Option Writer) (c : Chunk α) (extra : List α) : Res (Chunk α × List (Part α)) :=
+  let data := c.data ++ extra
+  if c.started then
+    match w with
+    | none => .error .runtimeError
+    | some W => if canFlush W c data.length then flushData W c data else .error .assertion
+  else
+    match w with
+    | some W =>
+      if canFlush W c data.length then flushData W c data
+      else .ok ({ c with left := c.left ++ data, data := [] }, [])
+    | none => .ok ({ c with left := c.left ++ data, data := [] }, [])
+
+/-- `MPUChunk.merge(lhs, rhs, write)` (`_mpu.py:126-165`) -/
+def merge (w : Option Writer) (l r : Chunk α) : Res (Chunk α × List (Part α)) :=
+  -- `MPUChunk.__init__` asserts `data is None or len(observed) > 0`; both branches pass `data`
+  if (l.observed ++ r.observed).length = 0 then .error .assertion
+  else if !r.started then
+    if r.left.length ≠ 0 then .error .assertion
+    else .ok ({ next := l.next, credits := l.credits + r.credits, data := l.data ++ r.data,
+                left := l.left, parts := l.parts, observed := l.observed ++ r.observed,
+                isFinal := r.isFinal, lhsKeep := l.lhsKeep }, [])
+  else
+    match flushRhs w l r.left with
+    | .error e => .error e
+    | .ok (l', ws) =>
+      .ok ({ next := r.next, credits := r.credits, data := r.data, left := l'.left,
+             parts := l'.parts ++ r.parts, observed := l.observed ++ r.observed,
+             isFinal := r.isFinal, lhsKeep := l.lhsKeep }, ws)
+
+/-- `maybe_write(write, spill_sz)` (`_mpu.py:256-284`), with the repaired size test
+`bytes_to_write < max(spill_sz, min_write_sz)` -/
+def maybeWrite (W : Writer) (spill : Nat) (c : Chunk α) : Res (Chunk α × List (Part α)) :=
+  let rhsKeep : Nat := if c.isFinal then 0 else W.minWrite
+  let partsToKeep : Int := if c.isFinal then 0 else 1
+  let lhsKeep : Nat := if c.started then 0 else c.lhsKeep
+  if c.credits - 1 < partsToKeep then .ok (c, [])
+  else
+    let btw : Int := (c.data.length : Int) - rhsKeep - lhsKeep
+    if btw < ((max spill W.minWrite : Nat) : Int) then .ok (c, [])
+    else
+      let n := btw.toNat
+      if lhsKeep = 0 then
+        let p : Part α := ⟨c.next, c.data.take n⟩
+        .ok ({ c with data := c.data.drop n, parts := c.parts ++ [p], next := c.next + 1,
+                      credits := c.credits - 1 }, [p])
+      else
+        if c.left.length ≠ 0 then .error .assertion
+        else
+          let p : Part α := ⟨c.next, (c.data.drop lhsKeep).take n⟩
+          .ok ({ c with left := c.data.take lhsKeep, data := c.data.drop (n + lhsKeep),
+                        parts := c.parts ++ [p], next := c.next + 1, credits := c.credits - 1 }, [p])
+
+/-- `flush(write, leftPartId, finalise=True)` (`_mpu.py:219-254`): returns the writer calls
+made and the list handed to `write.finalise`. -/
+def flush (W : Writer) (c : Chunk α) (leftPartId : Option Nat) :
+    Res (List (Part α) × List (Part α)) :=
+  if !c.started then
+    if c.left.length ≠ 0 then .error .assertion
+    else
+      let pid := match leftPartId with | none => c.next | some v => v
+      let p : Part α := ⟨pid, c.data⟩
+      .ok ([p], c.parts ++ [p])
+  else
+    let r1 : Res (Chunk α × List (Part α)) :=
+      if c.data.length ≠ 0 then flushRhs (some W) { c with isFinal := true } [] else .ok (c, [])
+    match r1 with
+    | .error e => .error e
+    | .ok (c1, w1) =>
+      if c1.left.length ≠ 0 then
+        if c1.left.length < W.minWrite then .error .assertion
+        else
+          let pid := match leftPartId with | none => 1 | some v => v
+          let p : Part α := ⟨pid, c1.left⟩
+          .ok (w1 ++ [p], p :: c1.parts)
+      else .ok (w1, c1.parts)
+
+/-- the loop body of `_mpu_append_chunks_op` -/
+def appendStep (w : Option Writer) (spill : Nat) (acc : Res (Chunk α × List (Part α)))
+    (chunk : List α × Int) : Res (Chunk α × List (Part α)) :=
+  match acc with
+  | .error e => .error e
+  | .ok (c, ws) =>
+    let c1 := c.append chunk.1 chunk.2
+    match w with
+    | none => .ok (c1, ws)
+    | some W =>
+      if spill = 0 then .ok (c1, ws)
+      else match maybeWrite W spill c1 with
+        | .error e => .error e
+        | .ok (c2, ws2) => .ok (c2, ws ++ ws2)
+
+/-- `_mpu_append_chunks_op` (`_mpu.py:440-454`), as repaired: while chunks of the partition
+are still arriving the section is not treated as final. -/
+def appendChunksOp (w : Option Writer) (spill : Nat) (c : Chunk α) (chunks : List (List α × Int)) :
+    Res (Chunk α × List (Part α)) :=
+  match chunks.foldl (appendStep w spill) (.ok ({ c with isFinal := false }, [])) with
+  | .error e => .error e
+  | .ok (c', ws) => .ok ({ c' with isFinal := c.isFinal }, ws)
+
+/-- `_merge_and_spill_op` (`_mpu.py:457-468`); one step of `_mpu_collate_op` is the same. -/
+def mergeAndSpill (w : Option Writer) (spill : Nat) (l r : Chunk α) :
+    Res (Chunk α × List (Part α)) :=
+  match merge w l r with
+  | .error e => .error e
+  | .ok (m, ws) =>
+    match w with
+    | none => .ok (m, ws)
+    | some W =>
+      if spill = 0 then .ok (m, ws)
+      else match maybeWrite W spill m with
+        | .error e => .error e
+        | .ok (m', ws') => .ok (m', ws ++ ws')
+
+/-- Merge tree over adjacent partitions; a leaf holds the `(bytes, chunk id)` items of one
+partition. -/
+inductive Tree (α : Type) where
+  | leaf (chunks : List (List α × Int))
+  | node (l r : Tree α)
+  deriving Repr
+
+def Tree.leaves : Tree α → Nat
+  | .leaf _ => 1
+  | .node l r => l.leaves + r.leaves
+
+/-- configuration of one `mpu_write` call -/
+structure Cfg where
+  writer : Option Writer
+  spill : Nat
+  wpc : Nat            -- writes_per_chunk
+  markFinal : Bool     -- `mk_footer is None`
+  deriving Repr
+
+def Cfg.minPart (cfg : Cfg) : Nat := match cfg.writer with | none => 1 | some W => W.minPart
+def Cfg.lhsKeep (cfg : Cfg) : Nat := match cfg.writer with | none => 0 | some W => W.minWrite
+/-- first part number of partition `i` (`mpu_write` / `gen_bunch`) -/
+def Cfg.base (cfg : Cfg) (i : Nat) : Nat := cfg.minPart + 1 + i * cfg.wpc
+
+/-- Evaluate the merge tree whose first partition has global index `idx` of `total`. -/
+def eval (cfg : Cfg) (total : Nat) : Tree α → Nat → Res (Chunk α × List (Part α))
+  | .leaf chunks, idx =>
+    appendChunksOp cfg.writer cfg.spill
+      (mkChunk (cfg.base idx) cfg.wpc (cfg.markFinal && decide (idx + 1 = total)) cfg.lhsKeep) chunks
+  | .node l r, idx =>
+    match eval cfg total l idx with
+    | .error e => .error e
+    | .ok (cl, wl) =>
+      match eval cfg total r (idx + l.leaves) with
+      | .error e => .error e
+      | .ok (cr, wr) =>
+        match mergeAndSpill cfg.writer cfg.spill cl cr with
+        | .error e => .error e
+        | .ok (m, wm) => .ok (m, wl ++ wr ++ wm)
+
+/-- result of `_finalizer_dask_op` -/
+inductive Out (α : Type) where
+  | chunk (c : Chunk α)                                   -- `write is None`: the root chunk
+  | written (writes : List (Part α)) (finalParts : List (Part α))
+  deriving Repr
+
+/-- `_finalizer_dask_op` (`_mpu.py:471-500`), as repaired (`leftPartId = write.min_part`).
+`hdr` / `ftr` are the bytes returned by the callbacks (`none`: callback absent). -/
+def finalizer (w : Option Writer) (root : Chunk α) (hdr ftr : Option (List α)) :
+    Res (Out α × List (Part α)) :=
+  let root1 := match ftr with
+    | some f => if f.length ≠ 0 then root.append f (-1) else root
+    | none => root
+  let r2 : Res (Chunk α × List (Part α)) := match hdr with
+    | some h =>
+      if h.length ≠ 0 then merge none ((mkChunk 1 1 false 0 : Chunk α).append h (-1)) root1
+      else .ok (root1, [])
+    | none => .ok (root1, [])
+  match r2 with
+  | .error e => .error e
+  | .ok (root2, w0) =>
+    match w with
+    | none => .ok (.chunk root2, w0)
+    | some W =>
+      match flush W root2 (some W.minPart) with
+      | .error e => .error e
+      | .ok (ws, fin) => .ok (.written ws fin, w0 ++ ws)
+
+/-- whole `mpu_write(...).compute()`: tree evaluation, callbacks on the observed list, finaliser.
+Returns the outcome, every writer call made, and the observed list shown to the callbacks. -/
+def run (cfg : Cfg) (t : Tree α) (mkHdr mkFtr : Option (List (Nat × Int) → List α)) :
+    Res (Out α × List (Part α) × List (Nat × Int)) :=
+  match eval cfg t.leaves t 0 with
+  | .error e => .error e
+  | .ok (root, ws) =>
+    let hdr := mkHdr.map (fun f => f root.observed)
+    let ftr := mkFtr.map (fun f => f root.observed)
+    match finalizer cfg.writer root hdr ftr with
+    | .error e => .error e
+    | .ok (out, ws') => .ok (out, ws ++ ws', root.observed)
+
+/-- all payload bytes of a tree in stream order -/
+def Tree.bytes : Tree α → List α
+  | .leaf chunks => (chunks.map (·.1)).flatten
+  | .node l r => l.bytes ++ r.bytes
+
+/-- the `(size, chunk id)` list of a tree in stream order -/
+def Tree.obs : Tree α → List (Nat × Int)
+  | .leaf chunks => chunks.map (fun ch => (ch.1.length, ch.2))
+  | .node l r => l.obs ++ r.obs
+
+def partsBytes (ps : List (Part α)) : List α := (ps.map (·.data)).flatten
 
 end OdcGeo.C06
